@@ -187,13 +187,14 @@ func (p *BaseChannelProposal) Decode(r io.Reader) (err error) {
 // * No locked sub-allocations
 // * non-zero ChallengeDuration.
 func (p *BaseChannelProposal) Valid() error {
+	// The allocation is validated first: NumPeers indexes its balances.
 	if p.InitBals == nil {
 		return errors.New("invalid nil fields")
+	} else if err := p.InitBals.Valid(); err != nil {
+		return err
 	} else if err := channel.ValidateProposalParameters(
 		p.ChallengeDuration, p.NumPeers(), p.App); err != nil {
 		return errors.WithMessage(err, "invalid channel parameters")
-	} else if err := p.InitBals.Valid(); err != nil {
-		return err
 	} else if len(p.InitBals.Locked) != 0 {
 		return errors.New("initial allocation cannot have locked funds")
 	}
